@@ -113,6 +113,31 @@ func (d *dfs) run(prefix []int, sigs []uint64, cache bool) (*vsched.Exec, any) {
 		cfg.Visited = d.visited
 	}
 	obs := d.s.Init()
+	defer func() {
+		if r := recover(); r != nil {
+			// engine errors (replay divergence, ...) name the scenario and the choice prefix
+			fmt.Fprintf(RealStderr, "ENGINE ERROR in scenario %q with choice prefix %v\n", d.s.Name, prefix)
+			if os.Getenv("VERIF_DEBUG") != "" {
+				tc := cfg
+				tc.Trace, tc.PrefixSigs = true, nil
+				for k := 0; k < 3; k++ {
+					func() {
+						defer func() { recover() }()
+						if k == 2 && len(prefix) > 0 {
+							tc.Prefix = prefix[:len(prefix)-1] // the parent execution
+						}
+						o2 := d.s.Init()
+						x2 := vsched.Run(tc, func() { d.s.Body(o2) })
+						fmt.Fprintf(RealStderr, "---- trace of run %d (prefix length %d) ----\n%s\n", k+1, len(tc.Prefix), strings.Join(x2.Log, "\n"))
+						for i, p := range x2.Points {
+							fmt.Fprintf(RealStderr, "point %d: %c n=%d chosen=%d sig=%x %s\n", i, p.Kind, p.N, p.Chosen, p.Sig, p.Desc)
+						}
+					}()
+				}
+			}
+			panic(r)
+		}
+	}()
 	x := vsched.Run(cfg, func() { d.s.Body(obs) })
 	return x, obs
 }
